@@ -643,7 +643,11 @@ func (ex *Exec) binop(op token.Token, xt types.Type, x, y string, yt types.Type)
 		}
 	}
 	// uninterpreted bit operation
-	fn := fmt.Sprintf("|bitop:%s:%d|", op.String(), bits)
+	opName := map[token.Token]string{token.AND: "and", token.OR: "or", token.XOR: "xor", token.SHL: "shl", token.SHR: "shr", token.AND_NOT: "andnot"}[op]
+	if opName == "" {
+		opName = fmt.Sprintf("op%d", int(op))
+	}
+	fn := fmt.Sprintf("|bitop:%s:%d|", opName, bits)
 	g.decl("fn:"+fn, fmt.Sprintf("(declare-fun %s (Int Int) Int)", fn))
 	g.note("int mode: bit operation " + op.String() + " left uninterpreted")
 	r := fmt.Sprintf("(%s %s %s)", fn, x, y)
